@@ -519,8 +519,19 @@ func (w *World) replayDoc(run *C09Run) any {
 	return map[string]any{"mode": "c09", "run": run, "spec": w.E.Spec, "lox": w.E.Lox, "real_lexable": w.E.RealLexable}
 }
 
+// tooManyHangs: once a shard has seen this many budget verdicts the violation is
+// established; exploring further would only burn the budget again and again.
+func tooManyHangs(res *Result) bool { return res.Stats["budget_verdicts"] >= 150 }
+
 func (w *World) oneC09(run *C09Run, res *Result, faultFree bool) {
+	if tooManyHangs(res) {
+		res.Stats["runs_skipped_after_hang_cap"]++
+		return
+	}
 	o := w.execParse(run)
+	if o.Verdict.Kind == "budget" {
+		res.Stats["budget_verdicts"]++
+	}
 	sig, detail, fl := w.judgeC09(o)
 	res.Runs++
 	res.Stats["ticks"] += o.Verdict.Ticks
